@@ -65,4 +65,16 @@ TEXT = {
     level_text="Generated concurrent histories x generated release orders of parked file-system calls; violations are observed (overlapping calls, goroutines that never return, fids left locked, race reports), never inferred.",
     level_note="Trusted: mockfs in-call counters, the settle heuristic of the gate controller (affects which interleavings are explored, never the verdict), the race detector.",
  ),
+ "C06": dict(
+    technique="property-based testing (rapid) of ServeConn with a scripted Handler (parks every invocation) and a scripted raw client speaking an independent codec; model = multiset of owed replies",
+    design_ref="DESIGN.md section 4, C06",
+    level_text="Generated request/completion schedules incl. pipelining and out-of-order completion; each reply is attributed by tag and by a marker embedded in the payload, so misrouted, duplicated, missing or altered replies are observed.",
+    level_note="Trusted: refwire codec, scripted handler, 10 s bound for 'a reply is missing'.",
+ ),
+ "C07": dict(
+    technique="property-based testing (rapid) of ServeConn flush handling: generated flush timings relative to handler start/completion, tag reuse while the flushed handler is still running, late completions; markers make stale replies attributable",
+    design_ref="DESIGN.md section 4, C07",
+    level_text="Generated schedules put the flush before, concurrently with and after the handler's completion and reuse the freed tag; a stale reply is recognised by its marker regardless of the tag it travels on.",
+    level_note="Trusted: as C06. Instruction-level interleavings inside the serve loop are chosen by the scheduler (each racy window is hit with high probability per case and many cases are run).",
+ ),
 }
